@@ -168,7 +168,7 @@ def advN : Nat → Cur → Option Cur
 /-- outcome of a reader: a value and the cursor after it; `fail(msg)` (with the cursor `fail` records);
 or an out-of-range read / exhausted loop budget, which Lemmas show never happen -/
 inductive Bad where
-  | oob | fuel
+  | oob | fuel | dead
   deriving DecidableEq, Repr
 
 inductive Res (α : Type) where
@@ -202,11 +202,6 @@ def isNameStart (ch : UInt8) : Bool :=
 def isNameChar (ch : UInt8) : Bool :=
   isNameStart ch || ch = 0x2D || ch = 0x2E || (0x30 ≤ ch && ch ≤ 0x39)
 
-/-- number of leading bytes satisfying `p` (how often a `while (!eof() && p(peek())) advance();` loop runs) -/
-def spanLen (p : UInt8 → Bool) : Bytes → Nat
-  | [] => 0
-  | ch :: r => if p ch then spanLen p r + 1 else 0
-
 /-- is `pat` a prefix of `r` (the comparison loops of `matchString`, `string_view::compare(pos, n, s) == 0`) -/
 def startsWith : Bytes → Bytes → Bool
   | [], _ => true
@@ -232,101 +227,224 @@ def findByte (b : UInt8) : Bytes → Option Nat
       | none => none
       | some k => some (k + 1)
 
+/-! ### reads and guards
+
+Every access to the input is one of the partial functions below; `none` is an index `≥ size`, i.e. an out-of-range read, and every
+caller turns it into the outcome `bad oob`.  The guards are the C++ comparisons with `_input.size()`.  Under the cursor invariant
+`Cur.At bs c` they are literally `bs[c.pos + i]?` and `c.pos + i ≥ bs.length` (`Cur.at_eq_get`, `Cur.beyond_iff` in
+`Lemmas/XmlExplicit.lean`).  The table of read sites with their dominating guards, regenerated from the header, is
+`Gen.Xml.readSites`; `readSites` below is what this file implements, and `Props/C14.lean` proves the two equal. -/
+
+/-- `peek()` = `_input[_cur]` -/
+def Cur.peek (c : Cur) : Option UInt8 := c.rest.head?
+
+/-- `_input[_cur + i]` -/
+def Cur.at (c : Cur) (i : Nat) : Option UInt8 := c.rest[i]?
+
+/-- `_cur + i >= _input.size()` -/
+def Cur.beyond (c : Cur) (i : Nat) : Bool := (c.rest.drop i).isEmpty
+
+/-- a look-ahead index `pos ≥ _cur` (`p` in `skipWhitespaceOutsideText`, `pos` in `readUntil` and `readDoctype`): its distance from
+`_cur`, and the input from there on -/
+structure Look where
+  off : Nat
+  rest : Bytes
+  deriving Repr
+
+/-- `pos = _cur` -/
+def Look.start (c : Cur) : Look := ⟨0, c.rest⟩
+/-- `pos >= _input.size()` -/
+def Look.atEnd (l : Look) : Bool := l.rest.isEmpty
+/-- `_input[pos]` -/
+def Look.read (l : Look) : Option UInt8 := l.rest.head?
+/-- `++pos` -/
+def Look.next (l : Look) : Look := ⟨l.off + 1, l.rest.tail⟩
+
+/-- `_input.find(pat, _cur)` (library call, bounds-safe by contract): index of the first occurrence relative to `_cur` -/
+def findFrom (pat : Bytes) : Nat → Bytes → Option Nat
+  | _, [] => none
+  | i, ch :: r => if startsWith pat (ch :: r) then some i else findFrom pat (i + 1) r
+
+/-- `while (!eof() && p(peek())) advance();` — the shape of the loops in `skipSpaces`, `readName` and `readQuotedValue`.
+`fuel` is any list at least as long as the remaining input (the callers pass the remaining input itself). -/
+def advWhile (p : UInt8 → Bool) : Bytes → Cur → Res Unit
+  | fuel, c =>
+    if c.eof then .ok () c                       -- `!eof()`
+    else
+      match c.peek with                          -- `peek()`
+      | none => .bad .oob
+      | some ch =>
+        if p ch then
+          match fuel with
+          | [] => .bad .fuel
+          | _ :: fuel' =>
+            match c.adv with                     -- `advance()`
+            | none => .bad .oob
+            | some c' => advWhile p fuel' c'
+        else .ok () c
+
 /-- mirrors `skipSpaces` -/
-def skipSpaces (c : Cur) : Res Unit := advR (spanLen isSpace c.rest) c
+def skipSpaces (c : Cur) : Res Unit := advWhile isSpace c.rest c
+
+/-- the scan loop of `skipWhitespaceOutsideText` (as repaired): `while (p < size) { ch = _input[p]; if (space) { ++p; continue; } break; }` -/
+def wsScan : Bytes → Look → Except Bad Look
+  | fuel, p =>
+    if p.atEnd then .ok p                        -- `p < _input.size()`
+    else
+      match p.read with                          -- `_input[p]`
+      | none => .error .oob
+      | some ch =>
+        if isSpace ch then
+          match fuel with
+          | [] => .error .fuel
+          | _ :: fuel' => wsScan fuel' p.next
+        else .ok p
 
 /-- mirrors `skipWhitespaceOutsideText` **as repaired (F29)**: look ahead over the white space; consume it only when markup
 (`<`) or the end of input follows.  (The unrepaired function consumed it unconditionally, i.e. was `skipSpaces`.) -/
 def skipWhitespaceOutsideText (c : Cur) : Res Unit :=
-  let k := spanLen isSpace c.rest
-  match c.rest[k]? with
-  | some ch => if ch ≠ 0x3C then .ok () c else advR k c
-  | none => advR k c
+  match wsScan c.rest (Look.start c) with
+  | .error b => .bad b
+  | .ok p =>
+    -- `if (p < _input.size() && _input[p] != '<') return;`
+    if p.atEnd then advR p.off c                 -- `while (_cur < p) advance();`
+    else
+      match p.read with
+      | none => .bad .oob
+      | some ch => if ch ≠ 0x3C then .ok () c else advR p.off c
 
-/-- mirrors `matchString(s)`: on a match the cursor moves over `s` -/
+/-- the comparison loop of `matchString`: `if (_cur + i >= size) return false; if (_input[_cur + i] != s[i]) return false; ++i;` -/
+def matchLoop (c : Cur) : Bytes → Nat → Except Bad Bool
+  | [], _ => .ok true
+  | x :: xs, i =>
+    if c.beyond i then .ok false                 -- `_cur + i >= _input.size()`
+    else
+      match c.at i with                          -- `_input[_cur + i]`
+      | none => .error .oob
+      | some ch => if ch ≠ x then .ok false else matchLoop c xs (i + 1)
+
+/-- mirrors `matchString(s)`: on a match the cursor moves over `s` (`for (j < i) advance();`) -/
 def matchString (s : Bytes) (c : Cur) : Res Bool :=
-  if startsWith s c.rest then (advR s.length c).bind fun _ c' => .ok true c' else .ok false c
+  match matchLoop c s 0 with
+  | .error b => .bad b
+  | .ok false => .ok false c
+  | .ok true => (advR s.length c).bind fun _ c' => .ok true c'
 
 /-- `a - 'A' + 'a'` for `'A'..'Z'` -/
 def lowerAscii (ch : UInt8) : UInt8 := if 0x41 ≤ ch && ch ≤ 0x5A then ch + 32 else ch
 
-/-- the case-insensitive comparison loop of `matchWordCaseInsensitive` -/
-def startsWithCI : Bytes → Bytes → Bool
-  | [], _ => true
-  | _ :: _, [] => false
-  | p :: ps, x :: xs => lowerAscii x = lowerAscii p && startsWithCI ps xs
+/-- the comparison loop of `matchWordCaseInsensitive`: `if (pos + i >= size) return false; a = _input[pos + i]; …` -/
+def matchLoopCI (c : Cur) : Bytes → Nat → Except Bad Bool
+  | [], _ => .ok true
+  | x :: xs, i =>
+    if c.beyond i then .ok false                 -- `pos + i >= _input.size()`
+    else
+      match c.at i with                          -- `_input[pos + i]`
+      | none => .error .oob
+      | some ch => if lowerAscii ch ≠ lowerAscii x then .ok false else matchLoopCI c xs (i + 1)
 
-/-- mirrors `matchWordCaseInsensitive(s)`: the word, then a boundary byte (white space, `>` or `[`; at the end of the input the
-code substitutes `'\0'`, which is none of them) -/
+/-- mirrors `matchWordCaseInsensitive(s)`: the word, then a boundary byte — white space, `>` or `[`;
+`next = (pos + i < size ? _input[pos + i] : '\0')` -/
 def matchWordCI (w : Bytes) (c : Cur) : Res Bool :=
-  if startsWithCI w c.rest then
-    match c.rest[w.length]? with
-    | none => .ok false c
+  match matchLoopCI c w 0 with
+  | .error b => .bad b
+  | .ok false => .ok false c
+  | .ok true =>
+    let nx : Option UInt8 :=
+      if c.beyond w.length then some 0           -- `pos + i < _input.size() ? … : '\0'`
+      else c.at w.length                         -- `_input[pos + i]`
+    match nx with
+    | none => .bad .oob
     | some nx =>
       if isSpace nx || nx = 0x3E || nx = 0x5B then (advR w.length c).bind fun _ c' => .ok true c'
       else .ok false c
-  else .ok false c
 
 /-- mirrors `readName`: `none` is the empty view.  When the name is longer than `maxNameLength` the code calls
 `fail("name too long")` and returns the empty view; every caller then calls `fail` again with its own message at the same cursor,
 so only the cursor (after the over-long name) is observable. -/
 def readName (o : Options) (c : Cur) : Res (Option Slice) :=
-  match c.rest with
-  | [] => .ok none c
-  | ch :: r =>
-    if !isNameStart ch then .ok none c
+  if c.eof then .ok none c                       -- `eof() ||`
+  else
+    match c.peek with                            -- `!isNameStart(peek())`
+    | none => .bad .oob
+    | some ch =>
+      if !isNameStart ch then .ok none c
+      else
+        (advR 1 c).bind fun _ c0 =>              -- `advance();`
+        (advWhile isNameChar c0.rest c0).bind fun _ c' =>   -- `while (!eof() && isNameChar(peek())) advance();`
+          let len := c'.pos - c.pos
+          if len > o.maxName then .ok none c' else .ok (some ⟨c.pos, len⟩) c'
+
+/-- the search loop of `readUntil`: `if (pos >= size) return false; if (_input.compare(pos, n, endSeq) == 0) …; ch = _input[pos++];`
+(`compare` is a library call that clamps to the end) — `none` = returned false -/
+def untilScan (endSeq : Bytes) : Bytes → Look → Except Bad (Option Look)
+  | fuel, l =>
+    if l.atEnd then .ok none                     -- `pos >= _input.size()`
+    else if startsWith endSeq l.rest then .ok (some l)
     else
-      (advR (1 + spanLen isNameChar r) c).bind fun _ c' =>
-        let len := c'.pos - c.pos
-        if len > o.maxName then .ok none c' else .ok (some ⟨c.pos, len⟩) c'
+      match l.read with                          -- `_input[pos++]`
+      | none => .error .oob
+      | some _ =>
+        match fuel with
+        | [] => .error .fuel
+        | _ :: fuel' => untilScan endSeq fuel' l.next
 
 /-- mirrors `readUntil(endSeq, start, len)`: `none` = returned false (cursor untouched) -/
 def readUntil (endSeq : Bytes) (c : Cur) : Res (Option Slice) :=
-  match findSub endSeq c.rest with
-  | none => .ok none c
-  | some k => (advR (k + endSeq.length) c).bind fun _ c' => .ok (some ⟨c.pos, k⟩) c'
+  match untilScan endSeq c.rest (Look.start c) with
+  | .error b => .bad b
+  | .ok none => .ok none c
+  | .ok (some l) =>                              -- `while (_cur < pos + endSeq.size()) advance();`
+    (advR (l.off + endSeq.length) c).bind fun _ c' => .ok (some ⟨c.pos, l.off⟩) c'
 
 /-- mirrors `readQuotedValue` -/
 def readQuotedValue (o : Options) (c : Cur) : Res Slice :=
-  match c.rest with
-  | [] => .fail .expectedQuote c
-  | q :: _ =>
-    if q ≠ 0x22 && q ≠ 0x27 then .fail .expectedQuoteChar c
-    else
-      (advR 1 c).bind fun _ c0 =>
-      (advR (spanLen (fun x => x ≠ q) c0.rest) c0).bind fun _ c1 =>
-        if c1.eof then .fail .unterminatedAttr c1
-        else
-          (advR 1 c1).bind fun _ c2 =>
-            let out : Slice := ⟨c0.pos, c1.pos - c0.pos⟩
-            if out.len > o.maxText then .fail .attrTooLong c2 else .ok out c2
+  if c.eof then .fail .expectedQuote c           -- `if (eof())`
+  else
+    match c.peek with                            -- `char quote = peek();`
+    | none => .bad .oob
+    | some q =>
+      if q ≠ 0x22 && q ≠ 0x27 then .fail .expectedQuoteChar c
+      else
+        (advR 1 c).bind fun _ c0 =>
+        (advWhile (fun x => x ≠ q) c0.rest c0).bind fun _ c1 =>   -- `while (!eof() && peek() != quote) advance();`
+          if c1.eof then .fail .unterminatedAttr c1
+          else
+            (advR 1 c1).bind fun _ c2 =>
+              let out : Slice := ⟨c0.pos, c1.pos - c0.pos⟩
+              if out.len > o.maxText then .fail .attrTooLong c2 else .ok out c2
 
-/-- mirrors `readAttributes` (`fuel` bounds the `while (true)`; each round consumes at least the attribute name) -/
-def readAttributes (o : Options) : Nat → List Attr → Cur → Res (List Attr)
-  | 0, _, _ => .bad .fuel
-  | fuel + 1, acc, c =>
+/-- mirrors `readAttributes` (`fuel` bounds the `while (true)`: each round consumes at least the attribute name, so any list longer
+than the remaining input suffices) -/
+def readAttributes (o : Options) : Bytes → List Attr → Cur → Res (List Attr)
+  | [], _, _ => .bad .fuel
+  | _ :: fuel, acc, c =>
     (skipSpaces c).bind fun _ c1 =>
-      match c1.rest with
-      | [] => .fail .eofInAttrs c1
-      | ch :: _ =>
-        if ch = 0x2F || ch = 0x3E then .ok acc c1
-        else
-          (readName o c1).bind fun name c2 =>
-            match name with
-            | none => .fail .badAttrName c2
-            | some nm =>
-              (skipSpaces c2).bind fun _ c3 =>
-                match c3.rest with
-                | [] => .fail .expectedEq c3
-                | e :: _ =>
-                  if e ≠ 0x3D then .fail .expectedEq c3
+      if c1.eof then .fail .eofInAttrs c1        -- `if (eof())`
+      else
+        match c1.peek with                       -- `char ch = peek();`
+        | none => .bad .oob
+        | some ch =>
+          if ch = 0x2F || ch = 0x3E then .ok acc c1
+          else
+            (readName o c1).bind fun name c2 =>
+              match name with
+              | none => .fail .badAttrName c2
+              | some nm =>
+                (skipSpaces c2).bind fun _ c3 =>
+                  if c3.eof then .fail .expectedEq c3          -- `eof() ||`
                   else
-                    (advR 1 c3).bind fun _ c4 =>
-                    (skipSpaces c4).bind fun _ c5 =>
-                    (readQuotedValue o c5).bind fun v c6 =>
-                      let acc' := acc ++ [⟨nm, v⟩]
-                      if acc'.length > o.maxAttrs then .fail .tooManyAttrs c6
-                      else readAttributes o fuel acc' c6
+                    match c3.peek with                         -- `peek() != '='`
+                    | none => .bad .oob
+                    | some e =>
+                      if e ≠ 0x3D then .fail .expectedEq c3
+                      else
+                        (advR 1 c3).bind fun _ c4 =>
+                        (skipSpaces c4).bind fun _ c5 =>
+                        (readQuotedValue o c5).bind fun v c6 =>
+                          let acc' := acc ++ [⟨nm, v⟩]
+                          if acc'.length > o.maxAttrs then .fail .tooManyAttrs c6
+                          else readAttributes o fuel acc' c6
 
 /-! ### parser state and `next()` -/
 
@@ -360,16 +478,16 @@ def Res.toStep {α : Type} (r : Res α) (k : α → Cur → Step) : Step :=
   | .fail e c => .err e c
   | .bad b => .bad b
 
-/-- mirrors `readProcessingInstruction` -/
+/-- mirrors `readProcessingInstruction` (`_input.find("?>", _cur)` is a library call) -/
 def readPI (o : Options) (s : St) (start : Cur) (c : Cur) : Step :=
   (readName o c).toStep fun target c1 =>
     match target with
     | none => .err .badPiTarget c1
     | some tg =>
-      match findSub [0x3F, 0x3E] c1.rest with
+      match findFrom [0x3F, 0x3E] 0 c1.rest with
       | none => .err .unterminatedPi c1
       | some k =>
-        (advR (k + 2) c1).toStep fun _ c2 =>
+        (advR (k + 2) c1).toStep fun _ c2 =>     -- `while (_cur < pos + 2) advance();`
           emit s c2 { kind := .pi, name := tg, text := ⟨c1.pos, k⟩, depth := s.depth,
                       offset := start.pos, line := start.line, column := start.col }
 
@@ -389,23 +507,38 @@ def readCData (s : St) (start : Cur) (c : Cur) : Step :=
     | some sl => emit s c1 { kind := .cdata, text := sl, depth := s.depth,
                              offset := start.pos, line := start.line, column := start.col }
 
-/-- the scan loop of `readDoctype`: index of the first `>` outside `[...]` (`bracket` never goes below zero) -/
-def doctypeScan : Bytes → Nat → Option Nat
-  | [], _ => none
-  | ch :: r, b =>
-    if ch = 0x5B then (doctypeScan r (b + 1)).map (· + 1)
-    else if ch = 0x5D then (doctypeScan r (b - 1)).map (· + 1)
-    else if ch = 0x3E && b = 0 then some 0
-    else (doctypeScan r b).map (· + 1)
+/-- the scan loop of `readDoctype`: `while (pos < size) { ch = _input[pos]; … else if (ch == '>' && bracket == 0) break; ++pos; }` -/
+def doctypeLoop : Bytes → Look → Nat → Except Bad Look
+  | fuel, l, b =>
+    if l.atEnd then .ok l                        -- `pos < _input.size()`
+    else
+      match l.read with                          -- `_input[pos]`
+      | none => .error .oob
+      | some ch =>
+        if ch = 0x5B then                        -- `++bracket`
+          match fuel with
+          | [] => .error .fuel
+          | _ :: fuel' => doctypeLoop fuel' l.next (b + 1)
+        else if ch = 0x5D then                   -- `if (bracket > 0) --bracket`
+          match fuel with
+          | [] => .error .fuel
+          | _ :: fuel' => doctypeLoop fuel' l.next (if b > 0 then b - 1 else b)
+        else if ch = 0x3E && b = 0 then .ok l    -- `break`
+        else
+          match fuel with
+          | [] => .error .fuel
+          | _ :: fuel' => doctypeLoop fuel' l.next b
 
 /-- mirrors `readDoctype` (after `<!DOCTYPE`) -/
 def readDoctype (s : St) (start : Cur) (c : Cur) : Step :=
-  match doctypeScan c.rest 0 with
-  | none => .err .unterminatedDoctype c
-  | some k =>
-    (advR (k + 1) c).toStep fun _ c1 =>
-      emit s c1 { kind := .doctype, text := ⟨c.pos, k⟩, depth := s.depth,
-                  offset := start.pos, line := start.line, column := start.col }
+  match doctypeLoop c.rest (Look.start c) 0 with
+  | .error b => .bad b
+  | .ok l =>
+    if l.atEnd then .err .unterminatedDoctype c  -- `if (pos >= _input.size())`
+    else
+      (advR (l.off + 1) c).toStep fun _ c1 =>    -- `while (_cur <= pos) advance();`
+        emit s c1 { kind := .doctype, text := ⟨c.pos, l.off⟩, depth := s.depth,
+                    offset := start.pos, line := start.line, column := start.col }
 
 /-- mirrors `readEndTag` (after `</`) -/
 def readEndTag (o : Options) (s : St) (start : Cur) (c : Cur) : Step :=
@@ -414,21 +547,23 @@ def readEndTag (o : Options) (s : St) (start : Cur) (c : Cur) : Step :=
     | none => .err .badEndName c1
     | some nm =>
       (skipSpaces c1).toStep fun _ c2 =>
-        match c2.rest with
-        | [] => .err .expectedGtEnd c2
-        | g :: _ =>
-          if g ≠ 0x3E then .err .expectedGtEnd c2
-          else
-            (advR 1 c2).toStep fun _ c3 =>
-              match s.stack with
-              | [] => .err .strayEnd c3
-              | top :: below =>
-                -- `_elementStack.back() != name`: the name's bytes are the `nm.len` bytes the cursor `c` stood on
-                if top ≠ c.rest.take nm.len then .err .mismatch c3
-                else
-                  .tok { kind := .endElement, name := nm, depth := (s.depth - 1) + 1,
-                         offset := start.pos, line := start.line, column := start.col }
-                       { cur := c3, depth := s.depth - 1, stack := below, produced := s.produced + 1 }
+        if c2.eof then .err .expectedGtEnd c2    -- `eof() ||`
+        else
+          match c2.peek with                     -- `peek() != '>'`
+          | none => .bad .oob
+          | some g =>
+            if g ≠ 0x3E then .err .expectedGtEnd c2
+            else
+              (advR 1 c2).toStep fun _ c3 =>
+                match s.stack with
+                | [] => .err .strayEnd c3
+                | top :: below =>
+                  -- `_elementStack.back() != name`: the name's bytes are the `nm.len` bytes the cursor `c` stood on
+                  if top ≠ c.rest.take nm.len then .err .mismatch c3
+                  else
+                    .tok { kind := .endElement, name := nm, depth := (s.depth - 1) + 1,
+                           offset := start.pos, line := start.line, column := start.col }
+                         { cur := c3, depth := s.depth - 1, stack := below, produced := s.produced + 1 }
 
 /-- mirrors `readStartOrEmptyTag` (after `<`) -/
 def readStartOrEmptyTag (o : Options) (s : St) (start : Cur) (c : Cur) : Step :=
@@ -436,41 +571,56 @@ def readStartOrEmptyTag (o : Options) (s : St) (start : Cur) (c : Cur) : Step :=
     match name with
     | none => .err .badStartName c1
     | some nm =>
-      (readAttributes o (c1.rest.length + 1) [] c1).toStep fun attrs c2 =>
-        -- `peek()` without an `eof()` test: safe only because `readAttributes` returned true on `/` or `>`
-        match c2.rest with
-        | [] => .bad .oob
-        | p :: _ =>
+      (readAttributes o (0 :: c1.rest) [] c1).toStep fun attrs c2 =>
+        -- `if (peek() == '/')` WITHOUT an `eof()` test: in range only because `readAttributes` returned true on `/` or `>`
+        match c2.peek with
+        | none => .bad .oob
+        | some p =>
           let empty := p = 0x2F
           (if empty then advR 1 c2 else .ok () c2).toStep fun _ c3 =>
-            match c3.rest with
-            | [] => .err .expectedGtStart c3
-            | g :: _ =>
-              if g ≠ 0x3E then .err .expectedGtStart c3
-              else
-                (advR 1 c3).toStep fun _ c4 =>
-                  if s.depth + 1 > o.maxDepth then .err .depthExceeded c4
-                  else if empty then
-                    .tok { kind := .emptyElement, name := nm, attrs := attrs, selfClosing := true, depth := s.depth + 1,
-                           offset := start.pos, line := start.line, column := start.col }
-                         { s with cur := c4, produced := s.produced + 1 }
-                  else
-                    .tok { kind := .startElement, name := nm, attrs := attrs, depth := s.depth + 1,
-                           offset := start.pos, line := start.line, column := start.col }
-                         { cur := c4, depth := s.depth + 1, stack := c.rest.take nm.len :: s.stack,
-                           produced := s.produced + 1 }
+            if c3.eof then .err .expectedGtStart c3          -- `eof() ||`
+            else
+              match c3.peek with                             -- `peek() != '>'`
+              | none => .bad .oob
+              | some g =>
+                if g ≠ 0x3E then .err .expectedGtStart c3
+                else
+                  (advR 1 c3).toStep fun _ c4 =>
+                    if s.depth + 1 > o.maxDepth then .err .depthExceeded c4
+                    else if empty then
+                      .tok { kind := .emptyElement, name := nm, attrs := attrs, selfClosing := true, depth := s.depth + 1,
+                             offset := start.pos, line := start.line, column := start.col }
+                           { s with cur := c4, produced := s.produced + 1 }
+                    else
+                      .tok { kind := .startElement, name := nm, attrs := attrs, depth := s.depth + 1,
+                             offset := start.pos, line := start.line, column := start.col }
+                           { cur := c4, depth := s.depth + 1, stack := c.rest.take nm.len :: s.stack,
+                             produced := s.produced + 1 }
 
-/-- the loop condition of `readText`: `peek() != '<'` -/
-def notLt (x : UInt8) : Bool := x ≠ 0x3C
+/-- the loop of `readText`: `while (!eof() && peek() != '<') { if ((_cur - start) >= maxTextSpan) return fail(…); advance(); }` -/
+def textLoop (o : Options) (start : Nat) : Bytes → Cur → Res Unit
+  | fuel, c =>
+    if c.eof then .ok () c                       -- `!eof()`
+    else
+      match c.peek with                          -- `peek() != '<'`
+      | none => .bad .oob
+      | some ch =>
+        if ch = 0x3C then .ok () c
+        else if c.pos - start ≥ o.maxText then .fail .textTooLarge c
+        else
+          match fuel with
+          | [] => .bad .fuel
+          | _ :: fuel' =>
+            match c.adv with                     -- `advance()`
+            | none => .bad .oob
+            | some c' => textLoop o start fuel' c'
 
-/-- mirrors `readText`, entered with a byte other than `<` under the cursor (the only call site has just tested exactly that, so
-the `sv.empty()` re-entry into `next()` is dead code).  The loop fails at the first byte for which `_cur - start ≥ maxTextSpan`. -/
-def readText (o : Options) (s : St) (c : Cur) (r : Bytes) : Step :=
-  let k := 1 + spanLen notLt r
-  if k > o.maxText then
-    (advR o.maxText c).toStep fun _ c1 => .err .textTooLarge c1
-  else
-    (advR k c).toStep fun _ c1 =>
+/-- mirrors `readText`.  The `if (sv.empty()) return next();` re-entry is the outcome `bad dead`: X2 proves it unreachable (the
+only call site has just seen a byte other than `<` under the cursor). -/
+def readText (o : Options) (s : St) (c : Cur) : Step :=
+  (textLoop o c.pos c.rest c).toStep fun _ c1 =>
+    if c1.pos - c.pos = 0 then .bad .dead
+    else
       emit s c1 { kind := .text, text := ⟨c.pos, c1.pos - c.pos⟩, depth := s.depth,
                   offset := c.pos, line := c.line, column := c.col }
 
@@ -484,28 +634,32 @@ def next (o : Options) (s : St) : Step :=
   if o.maxTokens ≠ 0 && s.produced ≥ o.maxTokens then .err .tokenLimit s.cur
   else
     (skipWhitespaceOutsideText s.cur).toStep fun _ c =>
-      match c.rest with
-      | [] => emitEof s c
-      | ch :: r =>
-        if ch = 0x3C then
-          (advR 1 c).toStep fun _ c1 =>
-            match c1.rest with
-            | [] => .err .eofAfterLt c1
-            | n :: _ =>
-              if n = 0x3F then (advR 1 c1).toStep fun _ c2 => readPI o s c c2
-              else if n = 0x21 then
-                (advR 1 c1).toStep fun _ c2 =>
-                  (matchString [0x2D, 0x2D] c2).toStep fun m c3 =>
-                    if m then readComment s c c3
-                    else
-                      (matchString [0x5B, 0x43, 0x44, 0x41, 0x54, 0x41, 0x5B] c3).toStep fun m c4 =>
-                        if m then readCData s c c4
+      if c.eof then emitEof s c                  -- `if (eof())`
+      else
+        match c.peek with                        -- `char c = peek();`
+        | none => .bad .oob
+        | some ch =>
+          if ch = 0x3C then
+            (advR 1 c).toStep fun _ c1 =>
+              if c1.eof then .err .eofAfterLt c1 -- `if (eof())`
+              else
+                match c1.peek with               -- `char n = peek();`
+                | none => .bad .oob
+                | some n =>
+                  if n = 0x3F then (advR 1 c1).toStep fun _ c2 => readPI o s c c2
+                  else if n = 0x21 then
+                    (advR 1 c1).toStep fun _ c2 =>
+                      (matchString [0x2D, 0x2D] c2).toStep fun m c3 =>
+                        if m then readComment s c c3
                         else
-                          (matchWordCI [0x44, 0x4F, 0x43, 0x54, 0x59, 0x50, 0x45] c4).toStep fun m c5 =>
-                            if m then readDoctype s c c5 else .err .badDecl c5
-              else if n = 0x2F then (advR 1 c1).toStep fun _ c2 => readEndTag o s c c2
-              else readStartOrEmptyTag o s c c1
-        else readText o s c r
+                          (matchString [0x5B, 0x43, 0x44, 0x41, 0x54, 0x41, 0x5B] c3).toStep fun m c4 =>
+                            if m then readCData s c c4
+                            else
+                              (matchWordCI [0x44, 0x4F, 0x43, 0x54, 0x59, 0x50, 0x45] c4).toStep fun m c5 =>
+                                if m then readDoctype s c c5 else .err .badDecl c5
+                  else if n = 0x2F then (advR 1 c1).toStep fun _ c2 => readEndTag o s c c2
+                  else readStartOrEmptyTag o s c c1
+          else readText o s c
 
 /-! ### running the parser to the end (`while (parser.next())`) -/
 
@@ -620,11 +774,46 @@ def decodeEntities (inp : Bytes) : DecRes := decodeLoop (inp.length + 1) inp 0 [
 
 /-! ### SAX -/
 
-/-- mirrors `runSax` with all nine callbacks registered: the callback sequence is the token sequence (each token goes to the
-slot of its kind; `Eof`/`Invalid` are never returned by `next()`), the result is `error() == nullptr` -/
-def runSax (o : Options) (bs : Bytes) : List Token × Bool :=
-  let (ts, out) := tokens o bs
-  (ts, match out with | .accepted _ _ => true | _ => false)
+/-- the nine members of `struct SaxCallbacks`, in declaration order -/
+inductive Slot where
+  | onXmlDecl | onDoctype | onStartElement | onEndElement | onEmptyElement | onText | onCData | onComment | onPI
+  deriving DecidableEq, Repr
+
+def Slot.all : List Slot :=
+  [.onXmlDecl, .onDoctype, .onStartElement, .onEndElement, .onEmptyElement, .onText, .onCData, .onComment, .onPI]
+
+def Slot.cxxName : Slot → String
+  | .onXmlDecl => "onXmlDecl" | .onDoctype => "onDoctype" | .onStartElement => "onStartElement"
+  | .onEndElement => "onEndElement" | .onEmptyElement => "onEmptyElement" | .onText => "onText" | .onCData => "onCData"
+  | .onComment => "onComment" | .onPI => "onPI"
+
+/-- the `switch (t.kind)` of `runSax`: which member a token kind is dispatched to (`Eof`, `Invalid`, `default`: none) -/
+def slotOf : Kind → Option Slot
+  | .xmlDecl => some .onXmlDecl
+  | .doctype => some .onDoctype
+  | .startElement => some .onStartElement
+  | .endElement => some .onEndElement
+  | .emptyElement => some .onEmptyElement
+  | .text => some .onText
+  | .cdata => some .onCData
+  | .comment => some .onComment
+  | .pi => some .onPI
+  | .eof | .invalid => none
+
+/-- which members hold a callable (`if (cb.onX)`) -/
+abbrev Registered := Slot → Bool
+
+/-- one iteration of the `while (parser.next())` loop of `runSax`: the callback that is invoked, if any.  A token whose member is
+empty is skipped (an empty `std::function` is never called). -/
+def saxDispatch (reg : Registered) (t : Token) : Option (Slot × Token) :=
+  match slotOf t.kind with
+  | none => none
+  | some sl => if reg sl then some (sl, t) else none
+
+/-- mirrors `runSax(parser, cb)`: the callbacks invoked, in order, and the result `parser.error() == nullptr` -/
+def runSax (reg : Registered) (o : Options) (bs : Bytes) : List (Slot × Token) × Bool :=
+  let r := tokens o bs
+  (r.1.filterMap (saxDispatch reg), match r.2 with | .accepted _ _ => true | _ => false)
 
 /-! ### DOM -/
 
@@ -722,10 +911,87 @@ def domOf (bs : Bytes) (r : List Token × Outcome) : DomRes :=
 
 def domBuild (o : Options) (bs : Bytes) : DomRes := domOf bs (tokens o bs)
 
+/-! ### the read sites this model implements
+
+One entry per raw read of the input in the C++ tokenizer, in source order: (function, read, guard, the code between guard and read —
+which is what makes the guard dominate the read), with a comment saying where this file performs that read under that guard.  `Gen.Xml.readSites` is the same table regenerated from the header on every run
+(`Props/C14.lean`, `gen_conformance`): a guard that is dropped, moved or rewritten in the header changes the regenerated table and
+the build fails. -/
+def readSites : List (String × String × String × String) :=
+  [
+   -- `next`: `if c.eof then emitEof s c else match c.peek`
+   ("next", "peek()", "eof()", ") { emitEof(); return false; } std::size_t startOffset = _cur; std::size_t startLine = _line; std::size_t startCol = _col; char c ="),
+   -- `next`: `if c1.eof then .err .eofAfterLt c1 else match c1.peek`
+   ("next", "peek()", "eof()", ") { return fail(\"unexpected end after '<'\"); } char n ="),
+   -- `Cur.peek` (partial; every caller guards or proves)
+   ("peek", "_input[_cur]", "none", ""),
+   -- `Cur.adv` (partial; `advN` / `advR` turn `none` into `bad oob`)
+   ("get", "_input[_cur++]", "none", ""),
+   -- `skipSpaces` = `advWhile isSpace`: `if c.eof then … else match c.peek`
+   ("skipSpaces", "peek()", "!eof()", ") { char ch ="),
+   -- `wsScan`: `if p.atEnd then … else match p.read`
+   ("skipWhitespaceOutsideText", "_input[p]", "p < _input.size()", ") { char ch ="),
+   -- `skipWhitespaceOutsideText`: `if p.atEnd then … else match p.read`
+   ("skipWhitespaceOutsideText", "_input[p]", "p < _input.size()", "&&"),
+   -- `matchLoop`: `if c.beyond i then .ok false else match c.at i`
+   ("matchString", "_input[_cur + i]", "_cur + i >= _input.size()", ") { return false; } if ("),
+   -- `matchLoopCI`: `if c.beyond i then .ok false else match c.at i`
+   ("matchWordCaseInsensitive", "_input[pos + i]", "pos + i >= _input.size()", ") { return false; } char a ="),
+   -- `matchWordCI`: `if c.beyond w.length then some 0 else c.at w.length`
+   ("matchWordCaseInsensitive", "_input[pos + i]", "pos + i < _input.size()", "?"),
+   -- `readName`: `if c.eof then .ok none c else match c.peek`
+   ("readName", "peek()", "eof()", "|| !isNameStart("),
+   -- `readName`: `advWhile isNameChar`
+   ("readName", "peek()", "!eof()", "&& isNameChar("),
+   -- `untilScan`: `if l.atEnd then .ok none else … match l.read`
+   ("readUntil", "_input[pos++]", "pos >= _input.size()", ") { return false; } if (_input.compare(pos, endSeq.size(), endSeq) == 0) { startOut = _cur; lenOut = pos - _cur; while (_cur < pos + endSeq.size()) { advance(); } return true; } char ch ="),
+   -- `readQuotedValue`: `if c.eof then .fail .expectedQuote c else match c.peek`
+   ("readQuotedValue", "peek()", "eof()", ") { return fail(\"expected quote\"); } char quote ="),
+   -- `readQuotedValue`: `advWhile (· ≠ q)`
+   ("readQuotedValue", "peek()", "!eof()", "&&"),
+   -- `readAttributes`: `if c1.eof then .fail .eofInAttrs c1 else match c1.peek`
+   ("readAttributes", "peek()", "eof()", ") { return fail(\"unexpected end in attributes\"); } char ch ="),
+   -- `readAttributes`: `if c3.eof then .fail .expectedEq c3 else match c3.peek`
+   ("readAttributes", "peek()", "eof()", "||"),
+   -- `doctypeLoop`: `if l.atEnd then .ok l else match l.read`
+   ("readDoctype", "_input[pos]", "pos < _input.size()", ") { char ch ="),
+   -- `readEndTag`: `if c2.eof then .err .expectedGtEnd c2 else match c2.peek`
+   ("readEndTag", "peek()", "eof()", "||"),
+   -- `readStartOrEmptyTag`: `match c2.peek` with NO guard — in range only because `readAttributes` returned on `/` or `>` (X2)
+   ("readStartOrEmptyTag", "peek()", "none", ""),
+   -- `readStartOrEmptyTag`: `if c3.eof then .err .expectedGtStart c3 else match c3.peek`
+   ("readStartOrEmptyTag", "peek()", "eof()", "||"),
+   -- `textLoop`: `if c.eof then … else match c.peek`
+   ("readText", "peek()", "!eof()", "&&")]
+
 /-- mirrors `Token::splitQName`: position of the first `:` in the name -/
 def splitQName (name : Bytes) : Option (Nat × Nat) :=
   match findByte 0x3A name with
   | none => none
   | some k => some (k, name.length - (k + 1))
+
+/-! ### `Node` helpers -/
+
+/-- mirrors `Node::getTextContent`: the values of the direct Text and CData children, concatenated -/
+def Node.getTextContent : Node → Bytes
+  | .elem _ _ ch => ch.flatMap fun c => match c with
+      | .text v => v
+      | .cdata v => v
+      | _ => []
+  | _ => []
+
+/-- mirrors `Node::getAttribute`: the value of the first attribute with that name; `none` = the empty (null) view -/
+def Node.getAttribute (n : Node) (name : Bytes) : Option Bytes :=
+  match n with
+  | .elem _ as _ => (as.find? fun a => a.1 == name).map (·.2)
+  | _ => none
+
+/-- mirrors `Node::childByName`: the first direct child that is an element with that name; `none` = `nullptr` -/
+def Node.childByName (n : Node) (name : Bytes) : Option Node :=
+  match n with
+  | .elem _ _ ch => ch.find? fun c => match c with
+      | .elem cn _ _ => cn == name
+      | _ => false
+  | _ => none
 
 end Iora.Xml
